@@ -21,6 +21,9 @@ OCCS = [(1, 1), (0, 1), (1, 99), (2, 2)]
 OCCS_FULL = [(1, 1), (0, 1), (0, 99), (1, 99), (2, 2), (1, 2), (0, 2)]
 
 
+SYMS = {"RestrW": ["a", "b", "c", "o", "u"]}     # o: an element of a foreign namespace, u: of no namespace
+
+
 def restr_universe(ctx: Ctx, family, shard, syms, tag):
     """shard = (kind, (mn, mx)) of the base group."""
     consts = {"Ver": '"1.0"', "MaxLen": 0, "Syms": "{" + ", ".join(f'"{s}"' for s in syms) + "}"}
@@ -58,7 +61,7 @@ def restriction_xsd(b, d):
 
 
 def doc(root, w):
-    return (f'<t:{root} xmlns:t="{cm.TNS}">' + "".join(f"<t:{a}/>" for a in w) + f"</t:{root}>")
+    return (f'<t:{root} xmlns:t="{cm.TNS}">' + "".join(cm.SYM_XML.get(a) or f"<t:{a}/>" for a in w) + f"</t:{root}>")
 
 
 def judge(job):
@@ -186,17 +189,19 @@ def load_witnesses():
 
 def plans(tier):
     if tier == "quick":
-        return [("RestrQ", [(k, o) for k in "sc" for o in OCCS]), ("RestrA", [("a", (1, 1)), ("a", (0, 1))])]
+        return [("RestrQ", [(k, o) for k in "sc" for o in OCCS]), ("RestrA", [("a", (1, 1)), ("a", (0, 1))]),
+                ("RestrW", [("s", (1, 1)), ("c", (1, 1))])]
     return [("RestrQ", [(k, o) for k in "sc" for o in OCCS]), ("RestrA", [("a", (1, 1)), ("a", (0, 1))]),
+            ("RestrW", [("s", (1, 1)), ("c", (1, 1))]),
             ("Restr1", [(k, o) for k in "sc" for o in OCCS_FULL])]
 
 
 def run(ctx: Ctx, collect=None):
     witnesses = load_witnesses()
-    syms = ["a", "b", "c"]
     total = 0
     per_scope = {}
     for family, shards in plans(ctx.tier):
+        syms = SYMS.get(family, ["a", "b", "c"])
         shard_pairs = ctx.parallel(
             [(lambda sh=sh: restr_universe(ctx, family, sh, syms, f"{family}-{sh[0]}{sh[1][0]}_{sh[1][1]}"))
              for sh in shards], width=8)
@@ -234,7 +239,9 @@ def run(ctx: Ctx, collect=None):
     ctx.exhaustive = True
     ctx.rule = ("every (base, derived) pair produced by the spec's edit operators (occurrence "
                 "tightening/widening of the group or a child, drop/add/rename/swap a child, choose a "
-                "branch, change the group kind) over the base family x schema class; a case is one "
+                "branch, change the group kind; family RestrW: exchange the namespace constraint of a wildcard among 7 "
+                "constraints, replace the particle by an element or by a repeated choice / sequence around it) over the "
+                "base family x schema class; a case is one "
                 "strict build of the restriction; only ACCEPTED restrictions are judged; plus every (base, derived) "
                 "pair of attribute uses and attribute wildcards of spec/AttrRestriction.tla (uses of x: 7 x 7, "
                 "of t:y and the wildcards bounded per tier), inclusion decided over the whole attribute-set space")
@@ -251,7 +258,8 @@ def replay(ctx: Ctx, case):
     b, d = case["base"], case["derived"]
     import itertools
     # decide inclusion for this single pair with an explicit model set
-    consts = {"Ver": '"1.0"', "MaxLen": 0, "Syms": '{"a", "b", "c"}'}
+    syms = SYMS.get(case.get("scope"), ["a", "b", "c"])
+    consts = {"Ver": '"1.0"', "MaxLen": 0, "Syms": "{" + ", ".join(f'"{x}"' for x in syms) + "}"}
     files = {"MC_CM.tla": "---- MODULE MC_CM ----\nEXTENDS ContentModel\nMCModels == {<<"
              + cm.to_tla(b) + ", " + cm.to_tla(d) + ', "replay">>}\n====\n'}
     cfg = (VERIF / "spec" / "ContentModel_restr.cfg").read_text() + "\nCONSTANT ModelSet <- MCModels\n"
